@@ -191,7 +191,7 @@ class HexBinary(AbstractBinary):
         elif not isinstance(value, str):
             raise cls._invalid_type(value)
 
-        value = value.strip()
+        value = collapse_white_spaces(value)
         if cls.pattern.match(value) is None:
             raise cls._invalid_value(value)
 
